@@ -81,6 +81,16 @@ def check(c):
                 inside &= Q[:, f] <= hi
         if not numpy.array_equal(inside, ap == leaf):
             return dict(**{"class": "node-range"}, what="tree_node_range of leaf %d is not the box of the points routed to it" % leaf)
+    # the same estimator object fitted again (other depth, other targets): every function reads the tree it is given NOW
+    if c["kind"] == "tree":
+        m.set_params(max_depth=(c["depth"] or 3) + 2, max_leaf_nodes=None)
+        m.fit(X[::-1] * numpy.array([1.0, -1.0]), y)
+        t = m.tree_
+        leaves2 = [i for i in range(t.node_count) if t.children_left[i] == -1]
+        if list(tree_leave_index(m)) != leaves2:
+            return dict(**{"class": "leave-index"}, what="after a refit of the same estimator: tree_leave_index is not the list of leaves")
+        if not numpy.array_equal(numpy.asarray(predict_leaves(m, Q)), m.apply(Q)):
+            return dict(**{"class": "predict-leaves"}, what="after a refit of the same estimator: predict_leaves differs from apply")
     return None
 
 
